@@ -45,9 +45,10 @@ type LibCase struct {
 	Layout  Layout  `json:"layout"`
 	Clock0  int64   `json:"clock0"`
 	Ops     []LibOp `json:"ops"`
-	Windows int     `json:"windows"`        // random windows per archive after each step
-	WSeed   uint64  `json:"wseed"`          // seed of the window draws (part of the case)
-	Over    int64   `json:"over,omitempty"` // >0: the path already holds a never-written file whose last archive is this many points longer; it is created again in place (open flags without O_EXCL)
+	Windows int     `json:"windows"`          // random windows per archive after each step
+	WSeed   uint64  `json:"wseed"`            // seed of the window draws (part of the case)
+	Syncer  int     `json:"syncer,omitempty"` // C05: >0: a second goroutine calls Sync on the same handle this many times while the history runs
+	Over    int64   `json:"over,omitempty"`   // >0: the path already holds a never-written file whose last archive is this many points longer; it is created again in place (open flags without O_EXCL)
 }
 
 type libSim struct{}
@@ -88,6 +89,9 @@ func (libSim) Gen(prop, tier string, r *rand.Rand) interface{} {
 	c := &LibCase{Layout: l, Clock0: genClock0(r, l), Windows: 4, WSeed: r.Uint64()}
 	if prop == "C06" && chance(r, 0.06) {
 		c.Over = between(r, 1, 50)
+	}
+	if prop == "C05" && chance(r, 0.06) {
+		c.Syncer = int(between(r, 2, 8))
 	}
 	nops := int(between(r, 3, 40))
 	if class == "prod" || class == "page" {
@@ -144,6 +148,20 @@ func (libSim) Gen(prop, tier string, r *rand.Rand) interface{} {
 					a = op.Pts[r.IntN(j)].Age // duplicate timestamp
 				}
 				op.Pts = append(op.Pts, LibPt{Age: a, V: FV(genValueFor(r, prop, vmode))})
+			}
+			if prop == "C03" && r.IntN(120) == 0 {
+				// a batch of several thousand points, nearly all of them stale, in
+				// no particular order (a backlog replayed through UpdateMany)
+				nfill := int(between(r, 4100, 6000))
+				fill := make([]LibPt, 0, nfill+len(op.Pts))
+				for j := 0; j < nfill; j++ {
+					fill = append(fill, LibPt{Age: l.MaxRet() + between(r, 1, 5000), V: FV(float64(j % 7))})
+				}
+				for _, p := range op.Pts {
+					fill[r.IntN(len(fill))] = p
+				}
+				op.Pts = fill
+				op.ID, op.Implicit = -1, true
 			}
 			c.Ops = append(c.Ops, op)
 		case x < wUpd+wMany+wAdv:
@@ -389,7 +407,7 @@ func (libSim) Run(e *Env, ci interface{}) {
 		return
 	}
 	for _, op := range c.Ops {
-		if len(op.Pts) > 500 || op.D < 0 || op.D > 4*400*86400 || op.ID < -1 || op.ID >= len(c.Layout.Archs) {
+		if len(op.Pts) > 8000 || op.D < 0 || op.D > 4*400*86400 || op.ID < -1 || op.ID >= len(c.Layout.Archs) {
 			e.Skip("invalid-case")
 			return
 		}
@@ -555,6 +573,9 @@ func (lr *libRun) step(i int, op LibOp) bool {
 	switch op.Op {
 	case "upd":
 		callErr, pan = callSafely(func() error {
+			if op.ID == -1 && op.Implicit {
+				return lr.db.Update(wt.Timestamp(pts[0].T), wt.Value(pts[0].V)) // the public wrapper
+			}
 			return lr.db.UpdatePointForArchive(op.ID, wt.Timestamp(pts[0].T), wt.Value(pts[0].V), nowArg)
 		})
 	case "many":
@@ -563,6 +584,9 @@ func (lr *libRun) step(i int, op LibOp) bool {
 			wpts[k] = wt.Point{Time: wt.Timestamp(p.T), Value: wt.Value(p.V)}
 		}
 		callErr, pan = callSafely(func() error {
+			if op.ID == -1 && op.Implicit {
+				return lr.db.UpdateMany(wpts) // the public wrapper
+			}
 			return lr.db.UpdatePointsForArchive(wpts, op.ID, nowArg)
 		})
 	default:
